@@ -23,6 +23,7 @@ def run(tier: str) -> int:
                  title=["Song", "So ng", "a b"][i % 3]) for i, s in enumerate(scs)]
     scns += drv.random_scenarios(800 if tier == "quick" else 12000)
     recs = pmap(drv.exec_sm, scns)
+    recs += pmap(drv.exec_bundled, drv.bundled_scenarios(tier), chunk=1)
     rejects, consumed, wall = validate_traces("SMTrace", "SMTrace", recs, tag=f"c02-{tier}", heap="4g")
     chk.add_traces(recs, rejects)
     chk.nontrivial = len({str(x["file"])[:4000] for x in recs})
